@@ -95,8 +95,9 @@ OpenCached(S) ==
                        id |-> NewId(S), kind |-> "ref", via |-> "loaded"]
   ELSE [found |-> FALSE, S |-> S, id |-> 0, kind |-> "none", via |-> "none"]
 
-(* Store.GetByHash: never a cache; the empty block is the package-level plain Rsmt2D                *)
-ByHashVia(S) == IF IsEmptyBlock THEN "emptyaccessor" ELSE IF S.odsF.present THEN "file" ELSE "none"
+(* Store.GetByHash: never a cache; a fresh accessor over the file, or, for the empty block, over    *)
+(* the package-level in-memory square - wrapped like every accessor the store hands out             *)
+ByHashVia(S) == IF IsEmptyBlock THEN "emptymem" ELSE IF S.odsF.present THEN "file" ELSE "none"
 
 ---------------------------------------------------------------------------
 (* Macro reads: fold WRead over a generating set.  After "all" the object is in the same state as  *)
@@ -239,7 +240,8 @@ Pred(S) ==
               ELSE [found |-> FALSE, via |-> "off", obs |-> NoObs],
    store2 |-> [found |-> o6.found, via |-> o6.via, obs |-> obsOf(o6)],
    byhash |-> [via |-> ByHashVia(S),
-               obs |-> IF ByHashVia(S) = "file" THEN Obs(NewFileObj(S), q) ELSE NoObs],
+               obs |-> IF ByHashVia(S) = "file" THEN Obs(NewFileObj(S), q)
+                       ELSE IF ByHashVia(S) = "emptymem" THEN Obs(NewMemObj, q) ELSE NoObs],
    plainq4  |-> IF S.odsF.present THEN PObs(FileInner(S.odsF), q) ELSE NoPObs,
    plainods |-> IF S.odsF.present THEN PObs(PlainOdsInner(S.odsF), q) ELSE NoPObs,
    disk |-> [ods |-> S.odsF.present, q4 |-> S.q4F.present, link |-> S.link]]
